@@ -258,6 +258,13 @@ func (b *OutboundBreaker) slide(now time.Time) {
 	ns := now.Sub(b.updated).Nanoseconds()
 	resolution := b.interval.Nanoseconds() / int64(b.ticks)
 	ticks := int(ns / int64(resolution))
+	if ticks <= 0 {
+		// Less than one tick since the window last moved: keep
+		// accumulating.  (Moving 'updated' here would discard
+		// the elapsed fraction, and a breaker polled more often
+		// than once per tick would never slide at all.)
+		return
+	}
 	if len(b.counts) < ticks {
 		ticks = len(b.counts)
 	}
